@@ -188,8 +188,14 @@ def parse_bad(ln):
     m = re.match(r"BAD id=(\d+) steps=(\d+) end=(\S+) diff=\[(.*?)\] oracle=(\S+) sched=(\S+) case=(\S+)$", ln)
     if not m:
         return dict(raw=ln)
-    return dict(id=int(m.group(1)), steps=int(m.group(2)), end=m.group(3), diff=m.group(4),
-                oracle=None if m.group(5) == "-" else m.group(5).replace("_", " "),
+    orc = None
+    if m.group(5) != "-":
+        seen = []
+        for o in m.group(5).replace("_", " ").split(";"):
+            if o not in seen:
+                seen.append(o)
+        orc = "; ".join(seen[:3])
+    return dict(id=int(m.group(1)), steps=int(m.group(2)), end=m.group(3), diff=m.group(4), oracle=orc,
                 sched=m.group(6), config=" ".join(t for t in m.group(7).split(";") if not t.startswith("id=")))
 
 
@@ -202,13 +208,14 @@ def report(ctx, runner, bads, tag):
     code.  A pure model/implementation difference triggers a search (exhaustive schedules of the same configuration
     with the oracles) for a concrete property failure."""
     seen = set()
-    for ln in bads:
-        b = parse_bad(ln)
+    parsed = [parse_bad(ln) for ln in bads]
+    parsed.sort(key=lambda b: (0 if b.get("oracle") else 1, b.get("steps", 0)))   # concrete failures first, shortest first
+    for b in parsed:
         if "raw" in b:
-            ctx.violation(dict(kind="unparsed", line=ln), what="C12: unparsable result line", no_input=True)
+            ctx.violation(dict(kind="unparsed", line=b["raw"]), what="C12: unparsable result line", no_input=True)
             continue
-        sig = (b["config"], (b["oracle"] or "")[:40], b["diff"][:30])
-        if sig in seen or len(seen) >= 6:
+        sig = ((b["oracle"] or "")[:40], b["diff"].split(" ")[0] if not b["oracle"] else "")
+        if sig in seen or len(ctx.violations) >= 3:
             continue
         seen.add(sig)
         replay = dict(kind="schedule", config=b["config"], sched=b["sched"], variant=runner.variant, tag=tag,
@@ -294,6 +301,8 @@ def run(ctx):
     for c in cs[:3]:
         ctx.sample(c.line(0))
     report(ctx, runner, bads, "corpus")
+    if ctx.violations:
+        return
     # 2. seeded random configurations x random schedules
     n = 2500 if ctx.quick else 30000
     cs = []
@@ -309,6 +318,8 @@ def run(ctx):
     for c in cs[:5]:
         ctx.sample(c.line(0))
     report(ctx, runner, bads, "random")
+    if ctx.violations:
+        return
     # 3. exhaustive schedules with a preemption bound on small configurations (supporting evidence)
     ex = []
     small = corpus()
@@ -322,6 +333,8 @@ def run(ctx):
     tally(ctx, oks)
     report(ctx, runner, bads, "explore")
     ctx.notes["explore"] = xs[:60]
+    if ctx.violations:
+        return
     ctx.cov["exhaustive"] = False
     # 4. thorough: the same corpus + random cases on an ASan/UBSan build (use-after-free on POOL_free, leaks)
     if not ctx.quick:
